@@ -1,5 +1,5 @@
 # C10 -- Rabin key operations are consistent and tamper-evident (DESIGN.md §5 C10)
-import vpl, os, re
+import vpl, os, re, time
 from concurrent.futures import ThreadPoolExecutor
 
 LEVEL = "proof"
@@ -20,9 +20,18 @@ def run(res, tier, seed, replay):
         "the uninitialised export buffer is an explicit argument `heap` of the model; theorems hold for every heap, the correspondence run supplies zeros "
         "and skips records whose square is 0 (verdict depends on stale heap bytes: finding verify-zero-stale-buffer)",
         "negative moduli reaching the NIZK stages (mpz_powm with negative exponent) are outside the model (`Unmodelled`)"]
+    t0 = time.time()
     vpl.proof_stage(res, LIBS)
+    vpl.log("[C10] proof stage %.0fs" % (time.time() - t0)); t0 = time.time()
     exe = vpl.build_harness("c10")
     drv = vpl.build_driver("C10")
+    # heap safety of the mpz_export targets for moduli above 8192 bits (libgmp writes the bytes: ASan is blind, valgrind is not);
+    # started now, collected at the end
+    def vg(what):
+        rc, out, err = vpl.run(["valgrind", "-q", "--error-exitcode=0", "--num-callers=12", exe, "--tier", tier, "--seed", str(seed), "--only", what], timeout=1500)
+        return what, rc, out, err
+    bg = ThreadPoolExecutor(3)
+    vfut = [] if replay else [bg.submit(vg, w) for w in ["vg-verify", "vg-decrypt", "vg-zero"]]
     nkeys = 4 if tier == "quick" else 8
     parts = ["g"] + ["k%d" % i for i in range(nkeys)]
     if replay and replay.get("replay", {}).get("record"):
@@ -43,6 +52,7 @@ def run(res, tier, seed, replay):
             outs.append((part, seed, out))
     # the records are independent: spread them over several model drivers (a full validity-proof record costs the
     # extracted model about a minute of binary-number arithmetic), heavy records round-robin
+    vpl.log("[C10] build + harness %.0fs" % (time.time() - t0)); t0 = time.time()
     def chunks(out, n):
         lines = out.split("\n")
         recs = [l for l in lines if l.startswith("REC ")]
@@ -68,6 +78,7 @@ def run(res, tier, seed, replay):
         return part, s, sub, mism, props
     with ThreadPoolExecutor(vpl.NPROC) as ex:
         cs = list(ex.map(corr, items))
+    vpl.log("[C10] model drivers %.0fs (%d chunks)" % (time.time() - t0, len(items))); t0 = time.time()
     for part, s, sub, mism, props in cs:
         for k in ("evaluations", "distinct_nontrivial", "disagreements"):
             res.cov[k] += sub.cov[k]
@@ -88,15 +99,22 @@ def run(res, tier, seed, replay):
             res.violation("correspondence", "model and implementation disagree: " + head + " :: " + rec[:300],
                           dict(kind="correspondence", harness="c10", seed=s, tier=tier, only=part, record=rec[:200000], detail=head),
                           found_input=bool(rec))
-    # heap safety of the mpz_export targets for moduli above 8192 bits (libgmp writes the bytes: ASan is blind, valgrind is not)
     if not replay:
-        def vg(what):
-            rc, out, err = vpl.run(["valgrind", "-q", "--error-exitcode=0", "--num-callers=12", exe, "--tier", tier, "--seed", str(seed), "--only", what], timeout=1500)
-            return what, rc, out, err
-        with ThreadPoolExecutor(2) as ex:
-            vs = list(ex.map(vg, ["vg-verify", "vg-decrypt"]))
+        vs = [f.result() for f in vfut]
+        vpl.log("[C10] valgrind collected after %.0fs" % (time.time() - t0))
         for what, rc, out, err in vs:
             done = "VGDONE" in out
+            if what == "vg-zero":
+                res.cov["evaluations"] += 1
+                pre, _, post = err.partition("VGMARK")
+                blk = lambda t: [b for b in re.split(r"\n==\d+== \n", t) if "uninitialised" in b and "TMCG_PublicKey::verify" in b]
+                if not done:
+                    res.violation("harness-crash", "valgrind run vg-zero did not finish (rc=%d): %s" % (rc, err[-600:]), dict(kind="harness", cmd="valgrind c10 --only vg-zero", stderr=err[-2000:]))
+                elif blk(post) and not blk(pre):
+                    res.violation("verify-zero-stale-buffer", "TMCG_PublicKey::verify reads the uninitialised export buffer for a signature value with zero square "
+                                  "(%d uninitialised-value errors under valgrind; none for the nonzero control): %s" % (len(blk(post)), blk(post)[0][:700]),
+                                  dict(kind="valgrind", cmd="valgrind %s --only vg-zero --seed %d" % (exe, seed), stderr=post[:3000]))
+                continue
             bad = re.findall(r"Invalid (?:write|read) of size \d+", err)
             where = "TMCG_PublicKey::verify" if what == "vg-verify" else "TMCG_SecretKey::decrypt"
             res.cov["evaluations"] += 1
